@@ -126,6 +126,51 @@ pub fn mutate(rng: &mut Rng, bytes: &[u8], other: &[u8]) -> Vec<u8> {
     b
 }
 
+/// Keeps mutated call-set containers from turning into decompression bombs: a BGZF ISIZE field
+/// or a BCF record length near 4 GiB makes the (dev-profile) decoder zero-fill gigabytes for
+/// 10-30 s of CPU before it reports a clean error, which would put those children at the CPU
+/// limit, where the outcome class depends on machine load. Length fields above 1 MiB are
+/// folded back below it; every other mutated byte stays as it is.
+fn defuse_length_fields(bytes: &mut [u8]) {
+    // BGZF blocks: magic 1f 8b 08 04, BSIZE at +16, ISIZE in the last four bytes
+    let mut i = 0;
+    while i + 18 <= bytes.len() {
+        if bytes[i] == 0x1f && bytes[i + 1] == 0x8b && bytes[i + 2] == 0x08 && bytes[i + 3] == 0x04 {
+            let bsize = u16::from_le_bytes([bytes[i + 16], bytes[i + 17]]) as usize + 1;
+            let end = i + bsize;
+            if bsize >= 26 && end <= bytes.len() {
+                let isize = u32::from_le_bytes([bytes[end - 4], bytes[end - 3], bytes[end - 2], bytes[end - 1]]);
+                if isize > (1 << 20) {
+                    bytes[end - 2] = 0;
+                    bytes[end - 1] = 0;
+                }
+                i = end;
+                continue;
+            }
+        }
+        i += 1;
+    }
+    // raw BCF: l_text, then per record l_shared / l_indiv
+    if bytes.len() > 9 && &bytes[..3] == b"BCF" {
+        let fold = |b: &mut [u8], at: usize| {
+            if at + 4 <= b.len() && u32::from_le_bytes([b[at], b[at + 1], b[at + 2], b[at + 3]]) > (1 << 20) {
+                b[at + 2] = 0;
+                b[at + 3] = 0;
+            }
+        };
+        fold(bytes, 5);
+        let l_text = u32::from_le_bytes([bytes[5], bytes[6], bytes[7], bytes[8]]) as usize;
+        let mut off = 9 + l_text;
+        while off + 8 <= bytes.len() {
+            fold(bytes, off);
+            fold(bytes, off + 4);
+            let ls = u32::from_le_bytes([bytes[off], bytes[off + 1], bytes[off + 2], bytes[off + 3]]) as usize;
+            let li = u32::from_le_bytes([bytes[off + 4], bytes[off + 5], bytes[off + 6], bytes[off + 7]]) as usize;
+            off += 8 + ls + li;
+        }
+    }
+}
+
 fn grid_shape(rng: &mut Rng) -> Vec<usize> {
     let d = rng.range(1, 4);
     (0..d).map(|_| rng.range(1, 4)).collect()
@@ -523,6 +568,7 @@ impl Prop for C17 {
                         ]);
                     }
                 }
+                defuse_length_fields(&mut raw);
                 let bytes = if rng.chance(1, 2) {
                     raw
                 } else {
@@ -551,6 +597,7 @@ impl Prop for C17 {
                 if rng.chance(1, 2) {
                     let other = gen::encode(&vcf, *rng.pick(&Container::ALL), &layout).map(|x| x.0).unwrap_or_default();
                     bytes = mutate(&mut rng, &bytes, &other);
+                    defuse_length_fields(&mut bytes);
                     case.family = "create_mutated_input".into();
                 }
                 case.args = vec!["create".into()];
@@ -671,9 +718,7 @@ impl Prop for C17 {
             files: case.files.clone(),
         };
         let t0 = std::time::Instant::now();
-        ctx.cpu_limit = 8;
         let r = l2::run_child(ctx, &child);
-        ctx.cpu_limit = 30;
         l2::cleanup(&r);
         if std::env::var("VERIF_DEBUG_SLOW").is_ok() && t0.elapsed().as_millis() > 200 {
             eprintln!("slow {} ms: {:?} {:?}", t0.elapsed().as_millis(), case.args, case.family);
@@ -819,7 +864,7 @@ impl Prop for C17 {
     fn assumptions(&self) -> Vec<String> {
         vec![
             "The binary is built in the dev profile (overflow checks, debug assertions), so arithmetic overflow is observable as a panic".into(),
-            "Children run under a 30 s CPU and 16 GiB address-space limit that only protect the sandbox; a kill by those limits or an allocation abort is counted as inconclusive, never as a violation".into(),
+            "Children run under a 30 s CPU and 16 GiB address-space limit that only protect the sandbox; a kill by those limits or an allocation abort is counted as inconclusive, never as a violation. Length fields of mutated BGZF / BCF containers above 1 MiB are folded back below it (decompression bombs cost the dev-profile decoder 10-30 s before a clean error, i.e. they sit at the limit, where the outcome would depend on machine load); the slowest remaining family (22,000 axes) needs about 2 s".into(),
             "--threads is exercised up to 64 only: thread-spawn failure under the sandbox's process limits would be an artefact".into(),
             "Violations are keyed by (source file of the panic, normalised message) so that individual defects can be listed and a new panic is still reported".into(),
         ]
